@@ -97,6 +97,7 @@ func WorkerMain(p *Prop, tier string, seed int64, shard, n int, outPath, tracePa
 	}
 
 	var caseStart int64 // unix nano; 0 = idle
+	rec.hb = &caseStart
 	var mu sync.Mutex
 	writeOut := func(done bool, g *Gen, cases int64) {
 		mu.Lock()
